@@ -33,9 +33,12 @@ FILES = {
     "validator": "vls-core/src/policy/simple_validator.rs",
     "onchain_validator": "vls-core/src/policy/onchain_validator.rs",
     "tracker": "vls-core/src/chain/tracker.rs",
+    "handler": "vls-protocol-signer/src/handler.rs",
+    "approver": "vls-protocol-signer/src/approver.rs",
 }
 
-CLASSES = ["tracker", "channels", "slot", "monitor", "monitor_decode", "node_state", "validator_factory", "store"]
+CLASSES = ["tracker", "channels", "slot", "monitor", "monitor_decode", "node_state", "validator_factory", "store",
+           "approver"]
 
 # lock getters: (file, fn name) -> class; their bodies are checked to contain exactly that lock
 GETTERS = {
@@ -58,6 +61,9 @@ LOCK_RECEIVERS = {
     "validator": {"slot": "slot"},
     "onchain_validator": {"slot": "slot"},
     "tracker": {},
+    "handler": {},
+    # the approvers' own mutexes (VelocityApprover.control, MemoApprover.approvals): one class `approver`
+    "approver": {"control": "approver", "approvals": "approver"},
 }
 
 # method-name lock expressions per file (receiver arbitrary)
@@ -71,6 +77,10 @@ METHOD_LOCKS = {
     "validator": {"get_state": "node_state", "get_channels": "channels", "get_tracker": "tracker"},
     "onchain_validator": {"get_state": "node_state", "get_channels": "channels", "get_tracker": "tracker"},
     "tracker": {},
+    "handler": {"get_state": "node_state", "get_channels": "channels", "get_tracker": "tracker",
+                "validator_factory": "validator_factory"},
+    "approver": {"get_state": "node_state", "get_channels": "channels", "get_tracker": "tracker",
+                 "validator_factory": "validator_factory"},
 }
 
 # request kinds: name -> list of top-level items
@@ -90,6 +100,10 @@ ENTRIES = {
     "add_allowlist": [("call", "node", "add_allowlist")],
     "set_allowlist": [("call", "node", "set_allowlist")],
     "remove_allowlist": [("call", "node", "remove_allowlist")],
+    # node-level entry points behind the SignInvoice / Preapprove* arms and the maintenance API
+    "sign_bolt11_invoice": [("call", "node", "sign_bolt11_invoice")],
+    "has_payment": [("call", "node", "has_payment")],
+    "persist_all": [("call", "node", "persist_all")],
     # a block handed to the tracker: the caller holds the tracker guard, the tracker notifies the
     # monitors (ChainListener methods of ChainMonitor), then the tracker is persisted
     "add_block": [("acq", "tracker", "g0"), ("choice", [("monitor", n) for n in
@@ -111,6 +125,40 @@ REQUIRED = [("node", "get_channel"), ("node", "find_or_create_channel"), ("node"
 
 KEYWORDS = {"if", "while", "for", "match", "return", "let", "fn", "loop", "else", "move", "as", "in",
             "Some", "Ok", "Err", "None", "Box", "Vec", "drop", "assert", "panic", "format", "vec"}
+
+
+# names the closure parameter of with_channel / with_channel_base carries in handler.rs
+CLOSURE_PARAMS = ("chan", "base", "channel", "ch", "c")
+
+# `node.<name>(` calls of handler.rs / approver.rs that are NOT functions of node.rs (trait methods and
+# accessors defined elsewhere; none of them takes a lock of the five classes).  Anything else that is not
+# found in node.rs makes the extraction fail closed.
+HANDLER_NODE_EXTERNALS = set()
+
+# functions that contain a lock acquisition but are not reachable from any request entry point:
+# construction / restore code that runs before the node is shared between threads, and test-only
+# accessors.  A lock acquisition site in any OTHER unreached function fails the extraction.
+NON_REQUEST_SITES = {
+    "node::new_from_persistence": "constructor (restore)",
+    "node::restore_node": "constructor (restore)",
+    "node::maybe_sync_persister": "called by restore_node only",
+    "provider::new": "constructor of the commitment point provider",
+    "monitor::new_from_persistence": "constructor (restore)",
+    "monitor::add_funding": "used by the unit tests of monitor.rs only",
+    "monitor::funding_depth": "used by unit tests only",
+    "monitor::funding_double_spent_depth": "used by unit tests only",
+    "monitor::closing_depth": "used by unit tests only",
+}
+
+# public Node API that no handler arm calls but other front ends (vlsd's RPC server, embedders) do:
+# scanned as additional programs `Node.<name>`
+NODE_API_EXTRA = ["get_chain_height", "allowables", "allowlist", "persist_all", "set_validator_factory",
+                  "update_velocity_controls", "has_payment", "sign_bolt11_invoice"]
+
+
+# method names that mutate their receiver (used to decide whether a temporary guard's section writes)
+MUTATORS = (r"\.\s*(insert|remove|push|push_back|pop|pop_front|clear|extend|retain|take|get_mut|entry|values_mut|"
+            r"iter_mut|drain|truncate|replace|as_mut|set_\w+|add_\w+|update_\w+)\s*\(")
 
 
 def blank_literals(src):
@@ -159,7 +207,7 @@ def match_close(src, i, open_c, close_c):
 def fns_in(src):
     """name -> list of (body, returns_guard) for every `fn name(...) ... { body }` of the text"""
     res = {}
-    for m in re.finditer(r"\bfn\s+(\w+)\s*(?:<[^>(]*>)?\s*\(", src):
+    for m in re.finditer(r"\bfn\s+(\w+)\s*(?:<(?:[^<>()]|\([^()]*\))*>)?\s*\(", src):
         name = m.group(1)
         j = match_close(src, m.end() - 1, "(", ")")
         # signature tail up to `{` or `;`
@@ -196,6 +244,14 @@ class Scan:
         self.gid = 0
         self.sim_stack = []
         self.recursion_cuts = set()
+        self.closure_bind = []
+        self.slot_w = []
+        self.wpath = []
+        self.cur_arm = None
+        # names of functions of the scanned files that take `&mut self`
+        self.mut_self_methods = set()
+        for f in self.src:
+            self.mut_self_methods.update(re.findall(r"\bfn\s+(\w+)\s*(?:<[^>(]*>)?\s*\(\s*&\s*(?:'\w+\s+)?mut\s+self\b", self.src[f]))
         self.check_global()
 
     # ---- global fail-closed checks ---------------------------------------------------------
@@ -264,6 +320,34 @@ class Scan:
                 return ("provider", name)
             if recv in ("chan", "c") and name in self.fns["channel"]:
                 return ("channel", name)
+        elif f in ("handler", "approver"):
+            if recv in ("node", "node()"):
+                if name in self.fns["node"]:
+                    return ("node", name)
+                if name not in HANDLER_NODE_EXTERNALS:
+                    raise ExtractError("%s calls node.%s, which is not a function of node.rs: cannot classify" % (FILES[f], name))
+                return None
+            if recv == "" and self.cur_arm and ("__local_%s_%s" % (self.cur_arm, name)) in self.fns["handler"]:
+                return ("handler", "__local_%s_%s" % (self.cur_arm, name))
+            if recv in ("self", "Self", "") and name in here and name not in ("do_handle", "handle"):
+                return (f, name)
+            if recv == "approver" and name in self.fns["approver"]:
+                return ("approver", name)
+            if recv == "tracker":
+                if name in self.fns["tracker"]:
+                    return ("tracker", name)
+                raise ExtractError("%s calls tracker.%s, which is not a function of tracker.rs" % (FILES[f], name))
+            if recv in CLOSURE_PARAMS and name in self.fns["channel"]:
+                return ("channel", name)
+        elif f == "tracker":
+            if recv in ("self", "Self", "") and name in here:
+                return ("tracker", name)
+            if recv == "listener" and name in self.fns["monitor"]:
+                return ("monitor", name)
+            if recv == "decoder" and name == "decode_next":
+                # the external block decoder calls back the ChainTrackerPushListener, every method of
+                # which forwards to do_push -> listener.on_push
+                return ("tracker", "do_push")
         return None
 
     # ---- body walk -------------------------------------------------------------------------
@@ -282,6 +366,16 @@ class Scan:
         self.stack.pop()
         self.scanned.add("%s::%s" % key[:2])
         items = alts[0] if len(alts) == 1 else [("choice_items", alts)]
+        if key[:2] == ("node", "get_channel"):
+            # `let mut guard = self.get_channels(); let elem = guard.get_mut(id);` only clones the Arc: the
+            # section is read-only although the binding is `mut` (checked shape, fail closed)
+            b0 = bodies[0][0]
+            if len(bodies) != 1 or len(re.findall(r"\bguard\b", b0)) != 2 or "Arc::clone(slot_arc)" not in b0 \
+                    or not re.search(r"let\s+mut\s+guard\s*=\s*self\s*\.\s*get_channels\s*\(\s*\)\s*;\s*let\s+elem\s*=\s*guard\s*\.\s*get_mut\s*\(", b0) \
+                    or re.search(r"\*\s*(elem|slot_arc)\s*=", b0):
+                raise ExtractError("Node::get_channel no longer just looks the slot up and clones the Arc "
+                                   "(its `let mut guard` section is taken to be read-only)")
+            items = [(it[0], it[1], it[2], False) if it[0] == "acq" else it for it in items]
         self.cache[key] = items
         return items
 
@@ -387,6 +481,16 @@ class Scan:
                 let = re.search(r"\blet\s+(?:mut\s+)?(\w+)\s*(?::[^=]+)?=\s*$", head)
                 let_ref = re.search(r"\blet\s+(?:mut\s+)?(\w+)\s*(?::[^=]+)?=\s*&\s*(?:mut\s+)?$", head)
                 after = body[end2:]
+                # does the section write the protected data?  `let mut g = <lock>` / `= &mut <lock>.f` (Rust
+                # needs the `mut` binding to mutate through the guard), or a temporary that is assigned
+                # through / has a mutating method called on it in the same statement
+                stmt_rest = re.split(r"[;{]", after, 1)[0]
+                w_let = bool(re.search(r"\blet\s+mut\s+\w+\s*(?::[^=]+)?=\s*$", head)) or bool(re.search(r"=\s*&\s*mut\s+$", head))
+                w_tmp = bool(re.match(r"(\s*\.\s*\w+)*\s*(=(?!=)|\+=|-=)", stmt_rest)) or bool(re.search(MUTATORS, stmt_rest))
+                if not w_tmp:
+                    # a method of the scanned sources that takes `&mut self`, called on the temporary guard
+                    cm1 = re.match(r"\s*\.\s*(\w+)\s*\(", stmt_rest)
+                    w_tmp = bool(cm1 and cm1.group(1) in self.mut_self_methods)
                 def check_escape(nm):
                     depth_, scope_end = 0, n
                     for q in range(end2, n):
@@ -403,15 +507,15 @@ class Scan:
                 if let and re.match(r"\s*;", after):
                     check_escape(let.group(1))
                     gid = g + ":" + let.group(1)
-                    items.append(("acq", cls, gid))
+                    items.append(("acq", cls, gid, w_let))
                     blocks[-1]["guards"].append(gid)
                 elif let_ref and re.match(r"(\s*\.\s*\w+)*\s*;", after) and not re.match(r"(\s*\.\s*\w+)*\s*\(", after):
                     check_escape(let_ref.group(1))
                     gid = g + ":" + let_ref.group(1)
-                    items.append(("acq", cls, gid))
+                    items.append(("acq", cls, gid, w_let))
                     blocks[-1]["guards"].append(gid)
                 else:
-                    items.append(("acq", cls, g))
+                    items.append(("acq", cls, g, w_tmp))
                     h = head.strip()
                     if re.match(r"(else\s+)?(if|while)\b(?!\s+let\b)", h):
                         cond_temps.append(g)
@@ -478,6 +582,32 @@ class Scan:
                     close = match_close(body, m.end() - 1, "(", ")")
                     pending.append((close, ("mark", name)))
                     pending.sort(key=lambda p: -p[0])
+                elif recv == "get_persister()" and f in ("handler", "approver"):
+                    # `node.get_persister().<name>(` = store leaf (handler.rs writes the tracker that way)
+                    close = match_close(body, m.end() - 1, "(", ")")
+                    pending.append((close, ("leaf", "store")))
+                    pending.sort(key=lambda p: -p[0])
+                elif name in ("with_channel", "with_channel_base") and f in ("handler", "approver"):
+                    # called with a closure literal: the closure body runs where with_channel calls
+                    # `f(chan)`, i.e. inside the slot section
+                    close = match_close(body, m.end() - 1, "(", ")")
+                    args = body[m.end():close]
+                    cm = re.search(r"(?:\bmove\s+)?\|\s*(?:mut\s+)?(\w+)\s*(?::[^|]*)?\|", args)
+                    if not cm:
+                        raise ExtractError("%s: %s called without a closure literal: the channel methods it runs cannot be determined" % (FILES[f], name))
+                    if cm.group(1) not in CLOSURE_PARAMS:
+                        raise ExtractError("%s: closure parameter `%s` of %s is not a known name" % (FILES[f], cm.group(1), name))
+                    ctext = args[cm.end():]
+                    inner = self.walk(f, ctext + ";")
+                    # the closure must not hand the channel to code the scan cannot follow
+                    for am in re.finditer(r"(?:(\w+)\s*\.\s*)?\b([a-z_]\w*)\s*\(\s*(?:&\s*mut\s+|&\s*)?%s\s*[,)]" % re.escape(cm.group(1)), ctext):
+                        if self.resolve(f, am.group(1) or "", am.group(2)) is None:
+                            raise ExtractError("%s: the closure of %s passes the channel to `%s`, which the scan cannot follow"
+                                               % (FILES[f], name, am.group(2)))
+                    calls = self.channel_calls(inner, 0)
+                    items.append(("subc", "node", name, inner, calls))
+                    i = close
+                    continue
                 elif name not in KEYWORDS:
                     tgt = self.resolve(f, recv, name)
                     if tgt and tgt not in GETTERS:
@@ -520,6 +650,32 @@ class Scan:
                     if n in self.fns["monitor"]]
         raise ExtractError("unknown closure kind " + which)
 
+    def channel_calls(self, items, depth):
+        """Channel methods called by a closure body, through the arm's local closures too"""
+        out = []
+        for it in items:
+            if it[0] == "sub" and it[1] == "channel":
+                out.append(it[2])
+            elif it[0] == "sub" and it[1] == "handler" and it[2].startswith("__local_") and depth < 6:
+                out.extend(self.channel_calls(self.items_of("handler", it[2], None), depth + 1))
+        return out
+
+    def register_local_closures(self, arm, text):
+        """`let name = |params| body;` inside an arm = a local function of that arm"""
+        self.cur_arm = re.sub(r"\W", "_", arm)
+        for m in re.finditer(r"\blet\s+(?:mut\s+)?(\w+)\s*(?::[^=]+)?=\s*(?:move\s+)?\|[^|]*\|\s*(?:->\s*[^{]+)?", text):
+            k = m.end()
+            if k < len(text) and text[k] == "{":
+                e = match_close(text, k, "{", "}")
+                body = text[k + 1:e]
+            else:
+                e = text.find(";", k)
+                body = text[k:e if e >= 0 else len(text)] + ";"
+            self.fns["handler"]["__local_%s_%s" % (self.cur_arm, m.group(1))] = [(body, False, False)]
+
+    def is_mut_method(self, meth):
+        return bool(re.search(r"\bfn\s+%s\s*(?:<[^>(]*>)?\s*\(\s*&\s*mut\s+self\b" % re.escape(meth), self.src["channel"]))
+
     def is_channel_method(self, name):
         # every method of channel.rs that takes `self` (Channel / ChannelStub / ChannelBase impls)
         pat = re.compile(r"\bfn\s+%s\s*(?:<[^>(]*>)?\s*\(\s*&(?:mut\s+)?self\b" % re.escape(name))
@@ -552,6 +708,10 @@ class Scan:
                 local[it[2]] = cls
                 if primary:
                     path.append(("acq", cls))
+                    w = bool(it[3]) if len(it) > 3 else False
+                    if cls == "slot" and self.slot_w and self.slot_w[-1] is not None:
+                        w = self.slot_w[-1]
+                    self.wpath.append(("acq", cls, w))
             elif k == "rel":
                 cls = local.pop(it[1], None)
                 if cls is not None:
@@ -562,6 +722,7 @@ class Scan:
                             break
                     if primary:
                         path.append(("rel", cls))
+                        self.wpath.append(("rel", cls))
             elif k == "mark":
                 pass
             elif k == "leaf":
@@ -571,6 +732,23 @@ class Scan:
                     path.append(("acq", it[1])); path.append(("rel", it[1]))
             elif k == "sub":
                 self.sim_fn(it[1], it[2], held, edges, path, primary, depth, it[3] if len(it) > 3 else None)
+            elif k == "subc":
+                # with_channel(id, |chan| <closure>) : the closure literal is bound to `f(chan)`
+                self.closure_bind.append(it[3])
+                # the slot section writes iff the closure calls a `&mut self` Channel method
+                self.slot_w.append(any(self.is_mut_method(mth) for mth in it[4]))
+                try:
+                    self.sim_fn(it[1], it[2], held, edges, path, primary, depth)
+                finally:
+                    self.closure_bind.pop()
+                    self.slot_w.pop()
+            elif k == "closure" and it[1] in ("chan", "base") and self.closure_bind and self.closure_bind[-1] is not None:
+                bound = self.closure_bind[-1]
+                self.closure_bind.append(None)     # not visible to nested with_channel bodies
+                try:
+                    self.simulate(bound, held, edges, path, primary, depth + 1)
+                finally:
+                    self.closure_bind.pop()
             elif k == "closure":
                 alts = self.closure_alts(it[1])
                 for j, (ff, nn) in enumerate(alts):
@@ -593,6 +771,188 @@ class Scan:
                     break
             if primary:
                 path.append(("rel", cls))
+                self.wpath.append(("rel", cls))
+
+
+def handler_arms(sc):
+    """Every `Message::X(..) =>` arm of the three `do_handle` functions of handler.rs (InitHandler, RootHandler,
+    ChannelHandler) as a program `<Handler>.<X>`, every other method of handler.rs that takes `self` as
+    `<Handler>.fn.<name>`, and the Node API of NODE_API_EXTRA as `Node.<name>`: -> [(name, items)].
+    Fail-closed: a do_handle without `match msg {`, an arm pattern the splitter does not understand, fewer
+    arms than `Message::` patterns at arm depth."""
+    src = sc.src["handler"]
+    impls = [(m.start(), m.group(1)) for m in re.finditer(r"\bimpl\s+(?:<[^>]*>\s*)?(?:[\w:]+\s+for\s+)?(\w+)\s*\{", src)]
+
+    def impl_of(pos):
+        best = None
+        for p, nm in impls:
+            if p < pos:
+                best = nm
+        if best is None:
+            raise ExtractError("handler.rs: no impl block before offset %d" % pos)
+        return best.replace("Handler", "") or best
+
+    out, seen = [], set()
+    for m in re.finditer(r"\bfn\s+do_handle\s*\(", src):
+        j = match_close(src, m.end() - 1, "(", ")")
+        k = j + 1
+        while k < len(src) and src[k] not in "{;":
+            k += 1
+        if k >= len(src) or src[k] == ";":
+            continue
+        e = match_close(src, k, "{", "}")
+        body = src[k + 1:e]
+        owner = impl_of(m.start())
+        mm = re.search(r"\bmatch\s+msg\s*\{", body)
+        if not mm:
+            raise ExtractError("handler.rs: %s::do_handle has no `match msg {`" % owner)
+        me = match_close(body, mm.end() - 1, "{", "}")
+        mb = body[mm.end():me]
+        # arm starts: `Message::X` at nesting depth 0 of the match body, followed by `=>`
+        depth, starts = 0, []
+        q = 0
+        while q < len(mb):
+            ch = mb[q]
+            if ch in "{([":
+                depth += 1
+            elif ch in "})]":
+                depth -= 1
+            elif depth == 0:
+                am = re.compile(r"Message::(\w+)\s*(\()?").match(mb, q)
+                if am and (q == 0 or not (mb[q - 1].isalnum() or mb[q - 1] in "_:")):
+                    p2 = am.end()
+                    if am.group(2):
+                        p2 = match_close(mb, am.end() - 1, "(", ")") + 1
+                    ar = re.compile(r"\s*=>").match(mb, p2)
+                    if not ar:
+                        raise ExtractError("handler.rs: arm pattern Message::%s of %s::do_handle not understood" % (am.group(1), owner))
+                    starts.append((q, ar.end(), am.group(1)))
+                    q = ar.end()
+                    continue
+                wm = re.compile(r"(_|[a-z]\w*)\s*=>").match(mb, q)
+                if wm and (q == 0 or not (mb[q - 1].isalnum() or mb[q - 1] in "_:")) \
+                        and not re.match(r"\s*(unimplemented|panic|unreachable)\s*!", mb[wm.end():]):
+                    # (a catch-all that only panics handles no request)
+                    raise ExtractError("handler.rs: %s::do_handle has a wildcard / binding arm `%s =>`: its requests cannot be enumerated" % (owner, wm.group(1)))
+            q += 1
+        if not starts:
+            raise ExtractError("handler.rs: no arms found in %s::do_handle" % owner)
+        sc.scanned.add("handler::do_handle")
+        for idx, (a0, a1, nm) in enumerate(starts):
+            end = starts[idx + 1][0] if idx + 1 < len(starts) else len(mb)
+            name = "%s.%s" % (owner, nm)
+            if name in seen:
+                raise ExtractError("handler.rs: duplicate arm " + name)
+            seen.add(name)
+            sc.register_local_closures(name, mb[a1:end])
+            out.append((name, sc.walk("handler", mb[a1:end] + ";")))
+            sc.cur_arm = None
+        # anything else in do_handle outside the match (prologue / epilogue) must not touch locks
+        rest = sc.walk("handler", body[:mm.start()] + ";" + body[me + 1:] + ";")
+        if any(it[0] in ("acq", "sub", "subc", "leaf") for it in rest):
+            out.append(("%s.<around-match>" % owner, rest))
+    if len(out) < 3:
+        raise ExtractError("handler.rs: do_handle functions not found")
+    # other methods of handler.rs that take self (pub API of the handlers, builder)
+    for name, bodies in sorted(sc.fns["handler"].items()):
+        if name in ("do_handle", "handle", "fmt", "from", "into"):
+            continue
+        if any(b[2] for b in bodies):
+            out.append(("Handler.fn.%s" % name, [("call", "handler", name)]))
+    for name in NODE_API_EXTRA:
+        if name not in sc.fns["node"]:
+            raise ExtractError("scanned function disappeared: node::" + name)
+        out.append(("Node." + name, [("call", "node", name)]))
+    # management API of the approvers (called by the front end, not by an arm): every method of approver.rs
+    # that takes self and is not one of the Approve trait's request methods reached above
+    for name, bodies in sorted(sc.fns["approver"].items()):
+        if any(b[2] for b in bodies) and not name.startswith(("approve_", "handle_proposed_")) and name not in ("fmt",):
+            out.append(("Approver." + name, [("call", "approver", name)]))
+    return out
+
+
+LOCK_SITE_RE = re.compile(r"\b(?:get_state|get_channels|get_tracker|validator_factory)\s*\(\s*\)|\w+\s*\.\s*lock\s*\(\s*\)")
+
+
+def site_census(sc):
+    """every function of the scanned files that contains a lock acquisition expression: reached from an
+    entry point / handler arm (scanned), a lock getter itself, or listed in NON_REQUEST_SITES.
+    -> (sites, unreached)   sites: [(file::fn, number of lock expressions, reached)]"""
+    sites, unreached = [], []
+    for f in sorted(sc.src):
+        for name, bodies in sorted(sc.fns[f].items()):
+            cnt = 0
+            for body, _, _ in bodies:
+                cnt += sum(1 for m in LOCK_SITE_RE.finditer(body)
+                           if not (f not in ("provider",) and m.group(0).startswith("get_channel(")))
+            if f == "provider":
+                cnt += sum(len(re.findall(r"\bget_channel\s*\(\s*\)", b[0])) for b in bodies)
+            if not cnt or (f, name) in GETTERS:
+                continue
+            key = "%s::%s" % (f, name)
+            reached = key in sc.scanned
+            sites.append((key, cnt, reached))
+            if not reached:
+                if key not in NON_REQUEST_SITES:
+                    raise ExtractError("lock acquisition site outside every request entry point and handler arm: %s "
+                                       "(add an entry point for it, or list it in NON_REQUEST_SITES with the reason)" % key)
+                unreached.append(key)
+    for key in NON_REQUEST_SITES:
+        if key not in unreached:
+            raise ExtractError("NON_REQUEST_SITES lists %s, which is now reached by a request or no longer takes a lock" % key)
+    return sites, unreached
+
+
+DOC_NAMES = {"tracker": "tracker", "channels": "channels", "channel map": "channels", "channel": "slot", "slot": "slot",
+             "node state": "node_state", "node_state": "node_state", "monitor": "monitor"}
+
+
+def documented_orders(repo):
+    """The lock orders the source itself documents in comments (`lock order: a -> b -> c`, `lock order: a before
+    b`, monitor.rs `Lock order: after self.state` next to decode_state): [(file:line, [class, ...])].  A comment
+    that mentions a lock order and is not understood fails the extraction (unless it documents an exception:
+    "backwards")."""
+    out = []
+    for f, rel in FILES.items():
+        text = read(repo, rel)
+        m0 = re.search(r"\n#\[cfg\(test\)\]\s*\n\s*mod\s+\w+", text)
+        lines = (text[:m0.start()] if m0 else text).split("\n")
+        for k, line in enumerate(lines):
+            cm = re.search(r"//+\s*(.*)$", line)
+            if not cm or not re.search(r"lock order", cm.group(1), re.I):
+                continue
+            c = cm.group(1)
+            # comments may continue on the next line(s)
+            j = k + 1
+            while j < len(lines) and re.match(r"\s*//", lines[j]) and j < k + 3:
+                c += " " + re.sub(r"^\s*//+\s*", "", lines[j])
+                j += 1
+            where = "%s:%d" % (rel, k + 1)
+            if re.search(r"backwards", c):
+                continue
+            m = re.search(r"lock order:?\s*\(?((?:[\w ]+?\s*->\s*)+[\w ]+?)\s*(?:[,.)(]|as in|$)", c, re.I)
+            if m:
+                names = [x.strip().lower() for x in m.group(1).split("->")]
+            else:
+                m = re.search(r"lock order:?\s*([\w ]+?)\s+before\s+([\w ]+?)\s*(?:[,.(]|as in|$)", c, re.I)
+                if m:
+                    names = [m.group(1).strip().lower(), m.group(2).strip().lower()]
+                elif f == "monitor" and re.search(r"lock order:?\s*after\s+`?self\.state`?", c, re.I):
+                    names = ["monitor", "monitor_decode_"]
+                else:
+                    raise ExtractError("%s: a comment documents a lock order that the extractor does not understand: %s" % (where, c[:120]))
+            chain = []
+            for nm in names:
+                if nm == "monitor_decode_":
+                    chain.append("monitor_decode")
+                elif nm in DOC_NAMES:
+                    chain.append(DOC_NAMES[nm])
+                else:
+                    raise ExtractError("%s: documented lock order names an unknown lock `%s`" % (where, nm))
+            out.append((where, chain))
+    if len(out) < 3:
+        raise ExtractError("the lock-order comments of node.rs / monitor.rs disappeared (found %d)" % len(out))
+    return out
 
 
 LEDGER_MARKS = ("claimable_balances", "validate_payments", "apply_payments")
@@ -672,7 +1032,7 @@ def velocity_time_facts(sc):
 def lean_class(c):
     return "." + {"node_state": "nodeState", "channels": "channels", "slot": "slot", "tracker": "tracker",
                   "monitor": "monitor", "monitor_decode": "monitorDecode",
-                  "validator_factory": "validatorFactory", "store": "store"}[c]
+                  "validator_factory": "validatorFactory", "store": "store", "approver": "approver"}[c]
 
 
 def build(repo):
@@ -680,11 +1040,42 @@ def build(repo):
     table = {}
     for kind, top in ENTRIES.items():
         edges, path = set(), []
+        sc.wpath = []
         sc.simulate(top, [], edges, path, True)
         slot_sections = sum(1 for e in path if e == ("acq", "slot"))
         table[kind] = {"edges": sorted(edges, key=lambda e: (CLASSES.index(e[0]), CLASSES.index(e[1]))),
-                       "path": path, "slot_sections": slot_sections}
+                       "path": path, "slot_sections": slot_sections, "wpath": sc.wpath}
+    arms = []
+    for name, items in handler_arms(sc):
+        edges, path = set(), []
+        sc.wpath = []
+        sc.simulate(items, [], edges, path, True)
+        secs = arm_sections(sc, items)
+        arms.append({"name": name, "edges": sorted(edges, key=lambda e: (CLASSES.index(e[0]), CLASSES.index(e[1]))),
+                     "path": path, "sections": secs, "wpath": sc.wpath})
+    sc.arms = arms
+    sc.sites, sc.unreached = site_census(sc)
     return sc, table
+
+
+def arm_sections(sc, items):
+    """the with_channel / with_channel_base sections a program opens itself or through helper functions of
+    handler.rs / approver.rs: [(with_channel | with_channel_base, [Channel methods called by the closure])]"""
+    out = []
+
+    def rec(its, depth):
+        if depth > 8:
+            return
+        for it in its:
+            if it[0] == "subc":
+                out.append((it[2], list(it[4])))
+            elif it[0] in ("sub", "call") and it[1] in ("handler", "approver"):
+                rec(sc.items_of(it[1], it[2], it[3] if len(it) > 3 else None), depth + 1)
+            elif it[0] == "choice_items":
+                for alt in it[1]:
+                    rec(alt, depth + 1)
+    rec(items, 0)
+    return out
 
 
 def extract(repo):
@@ -740,17 +1131,89 @@ def extract(repo):
           "read before it is inside that section, the time argument of insert is that read) -/",
           "def velocityTime : List (String × Bool × Bool × Bool) := [" +
           ", ".join('("%s", %s, %s, %s)' % ((n,) + tuple("true" if b else "false" for b in v)) for n, v in vt.items()) + "]"]
+    def is_mut(meth):
+        return bool(re.search(r"\bfn\s+%s\s*(?:<[^>(]*>)?\s*\(\s*&\s*mut\s+self\b" % re.escape(meth), sc.src["channel"]))
+    L += ["",
+          "/-- request programs of the protocol front end: every `Message::X` arm of the three `do_handle`",
+          "functions of handler.rs (with the closure literal of each `with_channel` call bound to the slot section),",
+          "the other `self` methods of handler.rs and the Node API no arm calls: name ↦ held-while-acquiring edges -/",
+          "def arms : List (String × List (Cls × Cls)) := ["]
+    L.append(",\n".join('  ("%s", [%s])' % (a["name"], ", ".join("(%s, %s)" % (lean_class(x), lean_class(y)) for x, y in a["edges"]))
+                        for a in sc.arms) + "]")
+    L += ["", "/-- the same programs: canonical event path (`true` = acquire) -/",
+          "def armPaths : List (String × List (Bool × Cls)) := ["]
+    L.append(",\n".join('  ("%s", [%s])' % (a["name"], ", ".join("(%s, %s)" % ("true" if x == "acq" else "false", lean_class(c)) for x, c in a["path"]))
+                        for a in sc.arms) + "]")
+    L += ["", "/-- the slot sections each program opens (`with_channel` = false / `with_channel_base` = true) with the",
+          "Channel methods its closure calls, in program order: (method, takes `&mut self`) -/",
+          "def armSections : List (String × List (Bool × List (String × Bool))) := ["]
+    L.append(",\n".join('  ("%s", [%s])' % (a["name"], ", ".join("(%s, [%s])" % ("true" if w == "with_channel_base" else "false",
+                        ", ".join('("%s", %s)' % (mth, "true" if is_mut(mth) else "false") for mth in calls)) for w, calls in a["sections"]))
+                        for a in sc.arms) + "]")
+    def wp(evs):
+        return ", ".join("(%s, %s, %s)" % ("true" if e[0] == "acq" else "false",
+                                          "true" if (e[0] == "acq" and e[2]) else "false", lean_class(e[1])) for e in evs)
+    L += ["", "/-- the canonical event path of every node-level kind (`kind:<name>`) and every front-end program with the",
+          "write flag of each critical section: (is acquire, the section writes the protected data, class).  A section",
+          "writes iff its guard is bound `let mut` / borrowed `&mut` (Rust needs that to mutate through the guard), a",
+          "temporary guard is assigned through or has a mutating method called on it, or - for the slot section of a",
+          "`with_channel` call with a closure literal - the closure calls a `&mut self` method of channel.rs -/",
+          "def progs : List (String × List (Bool × Bool × Cls)) := ["]
+    L.append(",\n".join(['  ("kind:%s", [%s])' % (k, wp(table[k]["wpath"])) for k in kinds] +
+                        ['  ("%s", [%s])' % (a["name"], wp(a["wpath"])) for a in sc.arms]) + "]")
+    L += ["", "/-- functions that contain a lock acquisition and are reached by NO entry point or arm (constructors,",
+          "restore code, test-only accessors; any other such function makes the extraction fail) -/",
+          "def unreachedSites : List String := [%s]" % ", ".join('"%s"' % k for k in sc.unreached),
+          "", "/-- (functions containing lock acquisitions, lock acquisition expressions in them, of which in reached functions) -/",
+          "def siteCount : Nat × Nat × Nat := (%d, %d, %d)" % (len(sc.sites), sum(s[1] for s in sc.sites), sum(s[1] for s in sc.sites if s[2]))]
+    docs = documented_orders(repo)
+    L += ["", "/-- the lock orders that comments of the sources document (`lock order: a -> b -> c`, `a before b`,",
+          "monitor.rs `Lock order: after self.state`): (file:line, chain of classes) -/",
+          "def documentedOrders : List (String × List Cls) := [" +
+          ", ".join('("%s", [%s])' % (w, ", ".join(lean_class(c) for c in ch)) for w, ch in docs) + "]"]
     L += ["", "end VlsModel.Gen.LockTable", ""]
     facts = {k: {"edges": ["%s->%s" % e for e in table[k]["edges"]],
                  "path": " ".join(("+" if a == "acq" else "-") + c for a, c in table[k]["path"])} for k in kinds}
     facts["_ledger_sections"] = {n: " ".join(("+ns" if a == "acq" else "-ns" if a == "rel" else b) for a, b in ev) for n, ev in lp.items()}
     facts["_velocity_time"] = {n: {"insert_under_lock": v[0], "clock_read_under_lock": v[1], "arg_is_that_read": v[2]} for n, v in vt.items()}
+    # pairs of request kinds that touch a common lock class (= can contend / share state): the harness
+    # enumerates every single-preemption schedule of each pair it has a representative request for
+    conflict_classes = ("tracker", "channels", "slot", "monitor", "node_state")
+    touched = {k: {c for _, c in table[k]["path"]} | {c for e in table[k]["edges"] for c in e} for k in kinds}
+    gen_pairs = [(a, b) for i, a in enumerate(kinds) for b in kinds[i:]
+                 if any(c in touched[a] and c in touched[b] for c in conflict_classes)]
+    rs = ("// GENERATED by translate/x_locks.py from the lock table of the current sources of /repo. Do not edit.\n"
+          "// Pairs of request kinds whose programs touch a common lock class (tracker, channels, slot, monitor,\n"
+          "// node_state): candidates for the single-preemption enumeration of harness-c20.\n"
+          "pub const GEN_PAIRS: &[(&str, &str)] = &[\n" +
+          "".join('    ("%s", "%s"),\n' % p for p in gen_pairs) + "];\n")
+    import os
+    gp = os.path.join(os.path.dirname(os.path.abspath(__file__)), "..", "harness-c20", "src", "gen_pairs.rs")
+    try:
+        old = open(gp).read()
+    except OSError:
+        old = None
+    if old != rs:
+        with open(gp, "w") as fh:
+            fh.write(rs)
+    facts["_generated_pairs"] = len(gen_pairs)
+    facts["_front_end_programs"] = {a["name"]: {"edges": ["%s->%s" % e for e in a["edges"]],
+                                                "slot_sections": [[w] + calls for w, calls in a["sections"]]}
+                                    for a in sc.arms if a["edges"] or a["path"]}
+    facts["_front_end_programs_without_locks"] = [a["name"] for a in sc.arms if not a["path"]]
+    facts["_site_census"] = {"functions_with_lock_acquisitions": len(sc.sites),
+                             "lock_expressions": sum(s[1] for s in sc.sites),
+                             "in_reached_functions": sum(s[1] for s in sc.sites if s[2]),
+                             "unreached": {k: NON_REQUEST_SITES[k] for k in sc.unreached}}
+    facts["_documented_lock_orders"] = {w: " -> ".join(ch) for w, ch in docs}
     facts["_scanned_functions"] = sorted(sc.scanned)
     facts["_recursion_cuts"] = sorted(sc.recursion_cuts)
     return {"LockTable.lean": "\n".join(L)}, {"C20": {"facts": {"lock_table": facts}, "obligations": [
         "Gen.LockTable: the sub-table of C20_partial is rank-increasing (theorem C20_subtable_acyclic, decide +kernel)",
         "Gen.LockTable: the full table contains the cycles of finding F11 (theorem C20_full_false)",
-        "Gen.LockTable: every ledger read-modify-write of a Channel method sits in one node_state section (theorem C20_ledger_sections_strict2pl)"]}}
+        "Gen.LockTable: every ledger read-modify-write of a Channel method sits in one node_state section (theorem C20_ledger_sections_strict2pl)",
+        "Gen.LockTable.arms: every Message arm of handler.rs / approver entry / Node API respects the lock rank except the block arms and Node::persist_all (theorems C20_handler_census, C20_handler_census_names)",
+        "Gen.LockTable.unreachedSites: every function with a lock acquisition is reached by a request program or is a reviewed constructor (theorem C20_site_census)"]}}
 
 
 if __name__ == "__main__":
@@ -761,3 +1224,28 @@ if __name__ == "__main__":
         print("   edges:", " ".join("%s->%s" % e for e in v["edges"]))
         print("   path: ", " ".join(("+" if a == "acq" else "-") + c for a, c in v["path"]))
     print(len(sc.scanned), "functions scanned; recursion cuts:", sorted(sc.recursion_cuts))
+    for a in sc.arms:
+        print(a["name"])
+        print("   edges:", " ".join("%s->%s" % e for e in a["edges"]))
+        print("   path: ", " ".join(("+" if x == "acq" else "-") + c for x, c in a["path"]))
+        if a["sections"]:
+            print("   sections:", a["sections"])
+    print("sites:", len(sc.sites), "unreached:", sc.unreached)
+    def proj(evs):
+        out, er = [], []
+        for e in evs:
+            if e[0] == "acq":
+                if e[2]:
+                    out.append("+" + e[1] + "!")
+                else:
+                    er.append(e[1])
+            elif e[1] in er:
+                er.remove(e[1])
+            else:
+                out.append("-" + e[1])
+        return out
+    for k, v in table.items():
+        print("W kind:" + k, " ".join(proj(v["wpath"])))
+    for a in sc.arms:
+        if a["wpath"]:
+            print("W " + a["name"], " ".join(proj(a["wpath"])))
